@@ -1155,6 +1155,19 @@ pub fn run(c: &mut Ctx) {
                 }
                 c.count(if turned { "iter:mix:direction-changed" } else { "iter:mix:one-direction" });
                 if !turned {
+                    // Iterator::nth / DoubleEndedIterator::nth_back (std default methods): the item of the last call
+                    let fwd = script.starts_with('f');
+                    let k = len - 1;
+                    let nth = guard(|| match (weeks, fwd) {
+                        (false, true) => start.iter_days().nth(k),
+                        (false, false) => start.iter_days().nth_back(k),
+                        (true, true) => start.iter_weeks().nth(k),
+                        (true, false) => start.iter_weeks().nth_back(k),
+                    });
+                    if nth != Ok(v.last().and_then(|x| x.1)) {
+                        fl.hit(c, "nth(k) / nth_back(k) is not the item of the (k+1)-th call", || format!("{kind} {script} {:?}", start));
+                    }
+                    c.count("iter:nth/nth_back = item of the last call of a one-direction script");
                     // within one direction no day is repeated or skipped
                     let mut s2 = seen.clone();
                     s2.dedup();
